@@ -12,6 +12,7 @@ use vharness::*;
 use wasmparser::Operator;
 use wirm::ir::function::FunctionBuilder;
 use wirm::ir::id::*;
+use wirm::ir::module::module_functions::FuncKind;
 use wirm::ir::module::module_globals::{Global, GlobalKind, LocalGlobal};
 use wirm::ir::types::{InitExpr, InitInstr, Value};
 use wirm::iterator::iterator_trait::IteratingInstrumenter;
@@ -323,8 +324,8 @@ fn gen_case(r: &mut Rng, seed: u64, idx: u64) -> Case {
                 _ => { if r.chance(1, 4) { NOp::Edit(Ed::AddImport(2, nfp(&mut fpc)), None) } else { NOp::Edit(Ed::AddImport(0, nfp(&mut fpc)), None) } }
             };
             hist.push(op.clone());
-            // replace_import_in_module silently refuses when the id it looks at already is a local function
-            let i2l_refused = if let NOp::Edit(Ed::ImportToLocal(k, _), _) = &op { catch_unwind(AssertUnwindSafe(|| module.functions.is_local(FunctionID(*k as u32)))).unwrap_or(false) } else { false };
+            // replace_import_in_module resolves the function through the import and silently refuses when no function is that import any more
+            let i2l_fid: Option<u64> = if let NOp::Edit(Ed::ImportToLocal(k, _), _) = &op { module.functions.iter().position(|f| matches!(f.kind(), FuncKind::Import(i) if i.import_id.0 as u64 == *k)).map(|p| p as u64) } else { None };
             let rres = catch_unwind(AssertUnwindSafe(|| -> (Option<u64>, Option<u64>) {
                 match &op {
                     NOp::Edit(Ed::AddLocalF(fp), bn) => {
@@ -377,7 +378,7 @@ fn gen_case(r: &mut Rng, seed: u64, idx: u64) -> Case {
                             for e in fents.iter_mut() { if e.id == *id && !e.import { e.import = true; e.dead = false; e.late = true; done = true; } }
                             if done { converted = true; ients.push((0, Some(*id))); }
                         }
-                        NOp::Edit(Ed::ImportToLocal(k, _), _) => { if !i2l_refused { for e in fents.iter_mut() { if e.id == *k { e.import = false; e.dead = false; e.late = true; } } } }
+                        NOp::Edit(Ed::ImportToLocal(..), _) => { if let Some(fid) = i2l_fid { for e in fents.iter_mut() { if e.id == fid { e.import = false; e.dead = false; e.late = true; } } } }
                         _ => {}
                     }
                 }
